@@ -153,7 +153,9 @@ Step ==
   /\ seen' = seen \cup SeenOf(W0, Ev)
   /\ IF l < Len(Rec.events)
      THEN /\ l' = l + 1 /\ t' = t
-          /\ cur' = IF Ev.a = "Normalize" THEN Normalise(cur, Ev.pd, Ev.d2s) ELSE cur
+          /\ cur' = IF Ev.a = "Normalize" THEN Normalise(cur, Ev.pd, Ev.d2s)
+                    ELSE IF Ev.a = "SetPositive" THEN [cur EXCEPT !.depths[Ev.k].positive = Ev.value]
+                    ELSE cur
      ELSE /\ l' = 1 /\ t' = t + 1
           /\ cur' = IF t + 1 <= Len(Log) THEN Log[t + 1].w.D ELSE cur
 TSpec == TInit /\ [][Step]_tvars
